@@ -5,6 +5,12 @@ cd "$(dirname "$0")" || exit 2
 set -e
 /venv/bin/python tools/extract.py --repo "${VERIF_REPO:-/repo}" --out lean/AioMySensors/Generated/Tables.lean --json tools/tables.json || true
 /venv/bin/python tools/translate.py --repo "${VERIF_REPO:-/repo}" --out lean/AioMySensors/Generated/Bodies.lean --stream-out lean/AioMySensors/Generated/StreamBodies.lean --codec-out lean/AioMySensors/Generated/CodecBodies.lean --mqtt-out lean/AioMySensors/Generated/MqttBodies.lean --persist-out lean/AioMySensors/Generated/PersistBodies.lean --snapshot tools/bodies_snapshot.json --json tools/bodies_status.json || true
+/venv/bin/python - <<'PYEOF' || true
+import json, os, subprocess
+repo = os.environ.get("VERIF_REPO", "/repo")
+for t in json.load(open("tools/ties.json")):
+    subprocess.run(["/venv/bin/python", t["script"], "--repo", repo, "--out", t["out"], "--snapshot", t["snapshot"]])
+PYEOF
 cd lean
 lake build AioMySensors
 echo "int 31,32" | lake env lean --run Driver.lean
